@@ -172,7 +172,18 @@ Inductive op :=
 Inductive wval := WV (v : kv) | WR (r : row).
 Definition wmap := list (bytes * wval).          (* the working map of enrichJoin *)
 Inductive eres := EErr | EDrop | ERow (w : wmap).
-Inductive out := OutE (e : eres) | OutU (ok : bool) | OutD.
+Inductive out := OutE (e : eres) | OutU (ok : bool) | OutD | OutG (ok : bool) (* RegisterTable[Source] returned *).
+
+(* a history that may also (re-)register tables while rows are being processed: RegisterTable /
+   RegisterTableSource under a name the store already has REPLACES the source of that name
+   (tableStore.register: ts.sources[src.Name()] = src); enrichJoin resolves the name per row
+   (s.tables.get(jc.Table)), UpsertTable resolves it per call. HDetached: an Upsert / Delete through the
+   *MemoryTableSource handle of a source that has been replaced -- it writes to an object the store no
+   longer holds. *)
+Inductive hop :=
+| HOp (o : op)
+| HReg (name : bytes) (keys : list bytes) (rows : list row)
+| HDetached (o : op).
 
 (* working[k] = v *)
 Fixpoint wset (k : bytes) (v : wval) (w : wmap) : wmap :=
@@ -276,6 +287,24 @@ Section Store.
     end.
   Definition register_all (regs : list (bytes * list bytes * list row)) : tables :=
     fold_left (fun ts x => register ts (fst (fst x)) (snd (fst x)) (snd x)) regs [].
+
+  (* histories with re-registration *)
+  Definition hstep (c : cfg) (ts : tables) (h : hop) : tables * out :=
+    match h with
+    | HOp o => step c ts o
+    | HReg name keys rows => (register ts name keys rows, OutG true)
+    | HDetached _ => (ts, OutD)
+    end.
+  Fixpoint hrun (c : cfg) (ts : tables) (hs : list hop) : list out :=
+    match hs with
+    | [] => []
+    | h :: hs' => let (ts', x) := hstep c ts h in x :: hrun c ts' hs'
+    end.
+  Fixpoint hfinal (c : cfg) (ts : tables) (hs : list hop) : tables :=
+    match hs with
+    | [] => ts
+    | h :: hs' => hfinal c (fst (hstep c ts h)) hs'
+    end.
 End Store.
 
 Arguments slookup {K}. Arguments sremove {K}. Arguments sset {K}.
@@ -288,6 +317,11 @@ Definition model_run (c : cfg) (regs : list (bytes * list bytes * list row)) (op
 Definition id_key (l : list kv) : list kv := l.
 Definition spec_run (c : cfg) (regs : list (bytes * list bytes * list row)) (ops : list op) : list out :=
   run (list kv) tuple_eqb id_key c (register_all (list kv) tuple_eqb id_key regs) ops.
+
+Definition model_hrun (c : cfg) (regs : list (bytes * list bytes * list row)) (hs : list hop) : list out :=
+  hrun bytes bytes_eqb encodeKey c (register_all bytes bytes_eqb encodeKey regs) hs.
+Definition spec_hrun (c : cfg) (regs : list (bytes * list bytes * list row)) (hs : list hop) : list out :=
+  hrun (list kv) tuple_eqb id_key c (register_all (list kv) tuple_eqb id_key regs) hs.
 
 (* ---------- the JOIN clause as written: rsql/parser.go parseJoin / stripAliasPrefix,
               stream/stream.go JoinKeyFields, streamsql.go RegisterTable ----------
@@ -371,6 +405,23 @@ Definition spec_run_sql (q : qtext) (regs : list reg_call) (ops : list op) : lis
   let c := parse_spec q in spec_run c (map (resolve_reg c) regs) ops.
 Definition model_run_sql_asfound (q : qtext) (regs : list reg_call) (ops : list op) : list out :=
   let c := parse_asfound q in model_run c (map (resolve_reg c) regs) ops.
+
+(* the same for histories with re-registration: a RegisterTable call in the middle of the history derives
+   its key fields from ON exactly as the first one does *)
+Inductive hcall :=
+| HCOp (o : op)
+| HCReg (r : reg_call)
+| HCDetached (o : op).
+Definition resolve_hop (c : cfg) (h : hcall) : hop :=
+  match h with
+  | HCOp o => HOp o
+  | HCReg r => let '(name, keys, rows) := resolve_reg c r in HReg name keys rows
+  | HCDetached o => HDetached o
+  end.
+Definition model_hrun_sql (q : qtext) (regs : list reg_call) (hs : list hcall) : list out :=
+  let c := parse_code q in model_hrun c (map (resolve_reg c) regs) (map (resolve_hop c) hs).
+Definition spec_hrun_sql (q : qtext) (regs : list reg_call) (hs : list hcall) : list out :=
+  let c := parse_spec q in spec_hrun c (map (resolve_reg c) regs) (map (resolve_hop c) hs).
 
 (* ---------- projection of the working map (SELECT list with qualified columns) and WHERE ----------
    The projection and expression evaluators themselves are C05/C06's subject; this is the part the
